@@ -1,8 +1,44 @@
 PROP = dict(
     harness="c11", level="exploration",
-    quick=dict(cases=2400, max_size=40, workers=8),
-    thorough=dict(cases=60000, max_size=60, workers=8),
-    rule="tbd",
-    assumptions=["tbd"],
+    quick=dict(cases=3200, max_size=40, workers=8),
+    thorough=dict(cases=64000, max_size=60, workers=8),
+    rule=("rapidcheck per-thread operation scripts executed by 2..16 real threads (all released together by a spin barrier) under "
+          "ThreadSanitizer: mode A alloc/release/shrink/query/write/statistics on one shared JitAllocator (random CreateParams), mode B "
+          "add/call/query/release of tiny functions through one shared JitRuntime (each thread its own CodeHolder + Assembler/Compiler), "
+          "mode C independent code generation (x86/a64 Assembler, Builder, Compiler; optional logger and validation) compared byte for "
+          "byte with the same program generated alone before the threads start; a case is non-trivial when at least two threads each "
+          "executed at least one allocator/runtime/code-generation operation after the start barrier; distinct = distinct case text. "
+          "Overlap is measured, not assumed: classes overlap_cases_two_or_more_threads_inside_entry_points (a relaxed counter saw >=2 "
+          "threads inside AsmJit entry points at once), max_simultaneously_inside_*, overlap_cases_window_two_or_more_threads / "
+          "overlap_window_ops (operations completed before the first thread finished its script)"),
+    assumptions=[
+        "ThreadSanitizer build (-fsanitize=thread, ASMJIT_ASSERT active); any TSan report ends the worker with exit code 97 and is reported "
+        "as key 'crash' with the running case as replay and the report in <replay>.log",
+        "the schedule is the operating system's: absence of ThreadSanitizer reports and of model failures only covers the interleavings "
+        "(more precisely: the unsynchronised access pairs) that actually occurred in the explored runs; a failing case may not reproduce "
+        "from its replay file every time (the replay repeats the case 20 times internally, the driver replays 3 times)",
+        "host information (CpuInfo::host(), VirtMem::info(), large_page_size(), hardened_runtime_info(), anonymous-memory strategy / memfd "
+        "probes, one JitAllocator and one JitRuntime constructed and destroyed) is initialised on the main thread before any worker "
+        "thread exists, as the property states; races inside that lazy initialisation are outside the claim",
+        "JitAllocator::reset() is documented as not thread-safe and is never called while threads run; the known single-threaded C09 "
+        "defects are kept out of the way: the empty-block retention policy is not asserted, kDisableInitialPadding is not used and every "
+        "span is an even number of granules (odd pool-0/1 spans of kUseMultiplePools stay under a per-thread byte budget) so that no block "
+        "can become exactly full (known finding full-block-stale-search-range would corrupt the heap)",
+        "a thread only queries / writes / shrinks / releases spans it allocated itself; dual-mapped spans are written through rw and read "
+        "through rx (ThreadSanitizer tracks the two views as unrelated addresses)",
+        "no liveness claim (deadlock freedom is only observed through the driver's wall-clock budget)",
+    ],
 )
-META = dict(engine="rapidcheck", technique="tbd", level_text="Exploration.", level_note="", design_ref="DESIGN.md section 4, C11")
+META = dict(
+    engine="rapidcheck + std::thread + ThreadSanitizer",
+    technique=("property-based concurrency testing: generated per-thread scripts run by real threads on one JitAllocator / JitRuntime or on "
+               "private CodeHolders; oracles are ThreadSanitizer's happens-before race detection, a per-thread ownership model audited "
+               "at a barrier (union of the models vs. statistics, disjointness, contents), and byte equality with a single-threaded reference"),
+    level_text=("Exploration: thousands (quick) to tens of thousands (thorough) of scripts with 2-16 threads. ThreadSanitizer reports an "
+                "unsynchronised access pair whenever both accesses occur in a run, without needing the harmful interleaving, so a removed "
+                "or narrowed lock and hidden global mutable state are found reliably (see sensitivity); nothing is claimed about "
+                "interleavings or code paths that were never executed concurrently."),
+    level_note=("Trusts ThreadSanitizer and the harness (barriers are the only harness synchronisation, so the harness adds no "
+                "happens-before edges between the barriers). The schedule is not controlled; evidence reports measured overlap."),
+    design_ref="DESIGN.md section 4, C11 and section 6",
+)
